@@ -1,6 +1,6 @@
 /-
   The vocabulary of the draft (`Spec.vocab`): under draft-07 the keywords `minContains`, `maxContains`,
-  `unevaluatedItems`, `unevaluatedProperties` are unknown keywords.  The Spec evaluates the schema object
+  `unevaluatedItems`, `unevaluatedProperties`, `$dynamicRef` are unknown keywords.  The Spec evaluates the schema object
   with these fields blanked; the evaluator guards its reads by the draft.  The bridge: a block that takes the
   draft, run on the node, is the same block run under 2020-12 on the blanked node — so the block lemmas are
   proved once, for 2020-12 and an arbitrary node.
@@ -19,6 +19,7 @@ theorem vocab_idem (d : Draft) (n : Node) : Spec.vocab d (Spec.vocab d n) = Spec
 @[simp] theorem vocab_d7_maxContains (n : Node) : (Spec.vocab .d7 n).maxContains = none := rfl
 @[simp] theorem vocab_d7_unevaluatedItems (n : Node) : (Spec.vocab .d7 n).unevaluatedItems = none := rfl
 @[simp] theorem vocab_d7_unevaluatedProperties (n : Node) : (Spec.vocab .d7 n).unevaluatedProperties = none := rfl
+@[simp] theorem vocab_d7_dynamicRef (n : Node) : (Spec.vocab .d7 n).dynamicRef = "" := rfl
 @[simp] theorem vocab_contains (d : Draft) (n : Node) : (Spec.vocab d n).contains = n.contains := rfl
 
 theorem vocab_eq_of_env {env : Spec.Env} (hd : env.draft = .d2020) (n : Node) : Spec.vocab env.draft n = n := by
@@ -56,6 +57,23 @@ theorem bUnevaluatedProps_vocab (d : Draft) (rec : Go.Rec) (stack : List NodeId)
   cases d
   · unfold bUnevaluatedProps; simp [Spec.vocab]
   · rfl
+
+/-- the `$dynamicRef` block reads the draft off the environment: on the node = on the blanked node -/
+theorem bDynamicRef_vocab (env : VEnv) (rec : Go.Rec) (stack : List NodeId) (n : Node) (info : Option Info)
+    (inst : GoVal) (anns : Anns) :
+    bDynamicRef env rec stack n info inst anns = bDynamicRef env rec stack (Spec.vocab env.draft n) info inst anns := by
+  unfold bDynamicRef
+  cases hd : env.draft
+  · simp
+  · rfl
+
+theorem bDynamicRef_d7 (env : VEnv) (hd : env.draft = .d7) (rec : Go.Rec) (stack : List NodeId) (n : Node)
+    (info : Option Info) (inst : GoVal) (anns : Anns) : bDynamicRef env rec stack n info inst anns = .ok anns := by
+  unfold bDynamicRef; simp [hd]
+
+theorem kwDynamicRef_d7 (env : Spec.Env) (sub : NodeId → Json → Spec.Out) (scope : List NodeId) (s : NodeId) (n : Node)
+    (j : Json) : Spec.kwDynamicRef env sub scope s (Spec.vocab .d7 n) j = some (some {}) := by
+  simp [Spec.kwDynamicRef]
 
 /-- draft-07: the four blocks do not depend on the four fields -/
 theorem bUnevaluatedItems_d7 (rec : Go.Rec) (stack : List NodeId) (n : Node) (xs : List GoVal) (anns : Anns) :
